@@ -228,6 +228,8 @@ func runC05(p *Prog, r *Report) {
 	for _, f := range append([]*ssa.Function{cb.admit, cb.check, cb.setState, cb.serve}, cb.lockRoots...) {
 		r.Fn(FName(f))
 	}
+	// ---- R7: a slow or failing side-effect hook cannot hold the breaker's lock: hooks run in their own goroutine (shared with C18.R4) ----
+	r.Borrow(p, runC18, map[string]string{"C18.R4": "C05.R7"}, func(o Ob) bool { return strings.Contains(o.Construct, "launcher") })
 	// ---- R6 liveness of the lock protocol: no self-deadlock, every lock released (shared with C09.R4 / C09.R3) ----
 	c09Reacquire(p, r, "C05.R6", []*types.Named{cb.typ})
 	c09LockOrder(p, r, "C05.R6", []*types.Named{cb.typ})
@@ -500,6 +502,8 @@ func runC12(p *Prog, r *Report) {
 	if cb == nil {
 		return
 	}
+	// ---- R7: a re-trip clears every metric, so the next recovery starts from an empty window (shared with C18.R3) ----
+	r.Borrow(p, runC18, map[string]string{"C18.R3": "C12.R7"}, nil)
 	// ---- R5: every request leaves the breaker's lock released, so the first request after recovery is not stuck behind an earlier one (shared with C09.R3 / C09.R4) ----
 	r.Floor("C12.R5", c09Pairing(p, r, "C12.R5", "cbreaker"), 4, "lock acquisitions in package cbreaker")
 	c09Reacquire(p, r, "C12.R5", []*types.Named{cb.typ})
@@ -757,6 +761,28 @@ func runC12(p *Prog, r *Report) {
 			r.Check(t.Root == cb.check, "C12.R4", "cbreaker.CircuitBreaker: re-trip only through the condition check, in "+FName(t.Root), p.InstrPos(t.Site), "ok", "the breaker is tripped outside the condition check routine")
 		}
 	}
+	// R6: every request that arrives during recovery is put to the ramp controller — including the one that opens the
+	// recovery: from the tripped->recovering transition every path to a return passes the controller's admission
+	// routine (or the transition to standby). A request decided without it is not counted, the controller's fraction
+	// is then too high and it refuses requests the ramp would admit.
+	askRamp := NewEvents(p, func(in ssa.Instruction) bool { return IsCallTo(in, allow) })
+	for _, t := range cb.ts.Transitions {
+		if t.Root != cb.admit || t.New != cb.ts.bit(cb.R) {
+			continue
+		}
+		toStandby := func(in ssa.Instruction) bool {
+			for _, t2 := range cb.ts.Transitions {
+				if t2.Root == cb.admit && t2.New == cb.ts.bit(cb.S) && t2.Site == in {
+					return true
+				}
+			}
+			return false
+		}
+		ret := ReturnReachableAvoiding(cb.admit, t.Site, func(in ssa.Instruction) bool { return askRamp.Is(in) || toStandby(in) }, nil)
+		r.Paths++
+		r.Check(ret == nil, "C12.R6", "cbreaker.CircuitBreaker: the request that opens the recovery is decided (and counted) by the ramp controller", p.InstrPos(t.Site),
+			"every path from the tripped->recovering transition to a return passes the controller's admission routine", "after entering recovery a return is reachable without consulting the ramp controller"+posOf(p, ret)+": that request is not counted, the fraction the controller computes is too high and requests the ramp allows are refused")
+	}
 }
 
 // ---------------- C18 ----------------
@@ -767,6 +793,50 @@ func runC18(p *Prog, r *Report) {
 		return
 	}
 	tn := "cbreaker.CircuitBreaker"
+	// ---- R1 (ranges): ResponseCodeRatio(startA, endA, startB, endB) counts the codes of the half-open ranges
+	// [start, end): the comparison with a start parameter is code - start >= 0, with an end parameter end - code > 0 ----
+	if rt := p.Named("memmetrics", "RTMetrics"); rt != nil {
+		if fn := p.MethodOf(rt, "ResponseCodeRatio"); fn != nil && fn.Blocks != nil && len(fn.Params) == 5 {
+			r.Fn(FName(fn))
+			for i := 1; i <= 4; i++ {
+				atomN := fmt.Sprintf("p%d", i)
+				isStart := i%2 == 1
+				nCmp, okForm := 0, true
+				got := ""
+				for _, ifi := range ifs(fn) {
+					cmp, okc := CanonCmp(BuildExpr(p, ifi.Cond, nil))
+					if !okc || !cmp.Mentions(atomN) {
+						continue
+					}
+					nCmp++
+					match := false
+					for _, c := range []LinCmp{cmp, cmp.Negate()} {
+						q := c.D.norm().P[atomN]
+						if q == nil {
+							continue
+						}
+						if isStart && c.Op == ">=" && q.Cmp(big.NewRat(-1, 1)) == 0 {
+							match = true
+						}
+						if !isStart && c.Op == ">" && q.Cmp(big.NewRat(1, 1)) == 0 {
+							match = true
+						}
+					}
+					if !match {
+						okForm, got = false, cmp.String()
+					}
+				}
+				what := "inclusive lower bound (code >= start)"
+				if !isStart {
+					what = "exclusive upper bound (code < end)"
+				}
+				r.Check(okForm && nCmp > 0, "C18.R1", fmt.Sprintf("memmetrics.(*RTMetrics).ResponseCodeRatio: parameter #%d is an %s", i, what), p.FuncPos(fn), "canonical comparison matches",
+					"the range test on this parameter is "+got+": the ranges of the condition's ResponseCodeRatio(a, b, c, d) are half-open [a,b) / [c,d), a code equal to an upper bound must not be counted (and one equal to a lower bound must)")
+			}
+		} else {
+			r.Anchor("C18.R1", "memmetrics.(*RTMetrics).ResponseCodeRatio", "not found")
+		}
+	}
 	// ---- R6: the status the breaker records is the final status the writer saw (shared with C20.R3, recording writer) ----
 	r.Borrow(p, c20Wrappers, map[string]string{"C20.R3": "C18.R6"}, func(o Ob) bool { return strings.Contains(o.Construct, "ProxyWriter") })
 	// ---- R5: the recorded responses are the ones the condition sees: no update of the metrics is lost (shared with C09.R1) ----
